@@ -28,12 +28,13 @@ func init() {
 
 const sentinel = "\x00SENTINEL\x00"
 
-// withSpareCapacity rebuilds v so that every array has hidden spare capacity
+// withSpareCapacity rebuilds v so that every array has hidden spare capacity (more than its
+// own length: a whole copy of the array fits behind it, as in a buffer grown by append)
 // filled with sentinels: an append onto a document slice becomes visible.
 func withSpareCapacity(v interface{}) interface{} {
 	switch t := v.(type) {
 	case []interface{}:
-		out := make([]interface{}, len(t), len(t)+3)
+		out := make([]interface{}, len(t), 2*len(t)+3)
 		for i, e := range t {
 			out[i] = withSpareCapacity(e)
 		}
